@@ -2394,6 +2394,47 @@ func init() {
 				c.Unresolved("ManifestReferrerDescriptor:parse", "the parsed manifest or the raw bytes parameter was not found")
 				return
 			}
+			// a manifest that names no subject is not a referrer: every successful return lies behind the ‘subject present’
+			// edge (the parsed Subject is not nil, or its digest is not empty).  The conversion of fallback tags drops listed
+			// manifests that are not referrers on this error and uses the empty subject as ‘none seen yet’; a nil error with
+			// an empty subject makes it list such a manifest as a referrer, or file a response under the subject "".
+			{
+				subjectPresent := func(b *ssa.BasicBlock) bool {
+					for _, g := range an.GuardingEdges(b) {
+						ifi := g.If()
+						if x, nilSucc, ok := an.NilTest(ifi); ok && g.Succ != nilSucc {
+							if root, pth := accessPath(an.Strip(x)); root == parsed && len(pth) > 0 && pth[0] == "Subject" {
+								return true
+							}
+						}
+						if x, y, op, ok := an.CmpTest(ifi); ok {
+							for _, pr := range [][2]ssa.Value{{x, y}, {y, x}} {
+								if s0, isS := an.ConstString(pr[1]); isS && s0 == "" {
+									if root, pth := accessPath(an.Strip(pr[0])); root == parsed && len(pth) > 0 && pth[0] == "Subject" {
+										if (op == token.NEQ && g.Succ == 0) || (op == token.EQL && g.Succ == 1) {
+											return true
+										}
+									}
+								}
+							}
+						}
+					}
+					return false
+				}
+				badRet := token.NoPos
+				nRet := 0
+				an.Instrs(fn, func(in ssa.Instruction) {
+					if ret, ok := in.(*ssa.Return); ok && len(ret.Results) == 3 && retErrNil(ret) {
+						nRet++
+						if !subjectPresent(ret.Block()) && badRet == token.NoPos {
+							badRet = ret.Pos()
+						}
+					}
+				})
+				if nRet > 0 {
+					c.Check(badRet == token.NoPos, "no-subject-is-an-error", fn.Pos(), "%s succeeds only for a manifest that names a subject (every successful return lies behind the ‘subject present’ edge): %v%s", c.P.FuncName(fn), badRet == token.NoPos, map[bool]string{true: "", false: fmt.Sprintf(" (the return at %s is reachable for a manifest without a subject) — the conversion of fallback tags then takes a listed manifest that is no referrer for one: it is served as a referrer of the tag's subject, or a response is filed under the subject \"\"", c.P.Pos(badRet))}[badRet == token.NoPos])
+				}
+			}
 			// the frame in which the descriptor is built: the function itself, or — when every successful return hands out the
 			// result of one building step of the package (parsed.referrerEntry(raw, d)) — that step, with its parameters in the
 			// place of the parsed manifest and the raw bytes
